@@ -709,6 +709,12 @@ pub fn encode_with_fixed_block_size<T: Source>(
         .set_block_sizes(block_size, block_size)
         .unwrap();
 
+    if stream.frame_count() == 0 {
+        // No frame was emitted (empty input): the initial sentinel values
+        // (min = u32::MAX, max = 0) are not valid; zero means "unknown".
+        stream.stream_info_mut().set_frame_sizes(0, 0).unwrap();
+    }
+
     let (_, context) = framebuf_and_context;
     stream
         .stream_info_mut()
